@@ -119,7 +119,8 @@ def main(tier):
             x = lines[i - 1]
             if x["ev"] == "fail":
                 pkg = x["site"].split(".(")[0] if ".(" in x["site"] else x["site"].rsplit(".", 1)[0]
-                facts = {"entry": x["entry"], "kind": x["kind"], "site_pkg": pkg, "site": x["site"], "pclass": x["pclass"]}
+                facts = {"entry": x["entry"], "kind": x["kind"], "site_pkg": pkg, "site": x["site"], "pclass": x["pclass"],
+                         "ndr_entry": x["entry"] in ("pac.ClientClaimsInfo", "pac.KerbValidationInfo", "pac.PACType.Unmarshal+Process", "messages.Ticket.GetPACType", "messages.Ticket.GetPACType/nil-logger")}
                 rejected_fail_keys.add((x["entry"], x["kind"]))
                 run.violation(facts, {"line": x})
         for i in bad:
